@@ -351,6 +351,7 @@ func (e *Engine) verifyFunctionCase(fn *ssa.Function, ct *Contract, mode Mode, s
 			args[idx] = VInt{Int64C(int64(sel.val))}
 		}
 	}
+	e.curArgs = args
 	fr := e.newFrame(fn, args, nil)
 	fr.contract = ct
 	fr.entryHeap = make(map[*Object]interface{}, len(s.heap))
@@ -369,6 +370,10 @@ func (e *Engine) verifyFunctionCase(fn *ssa.Function, ct *Contract, mode Mode, s
 		for _, cl := range ct.Honest {
 			s.assume(c.evalBool(cl.Expr))
 		}
+	}
+	// proved lemmas instantiated on the parameters
+	for _, cl := range ct.Uses {
+		s.assume(c.evalBool(cl.Expr))
 	}
 	// equalities `x == const` from the precondition (typically len(s) == 3) are propagated
 	// into the initial state so that loops over such lists run with concrete bounds
@@ -419,6 +424,7 @@ func (e *Engine) atReturn(s *State, f *Frame, res []Value, pos token.Pos) {
 	if ct == nil {
 		return
 	}
+	s.results = res
 	env := copyEnv(f.params)
 	names := e.resultNames(ct, len(res))
 	for i, v := range res {
@@ -428,11 +434,21 @@ func (e *Engine) atReturn(s *State, f *Frame, res []Value, pos token.Pos) {
 	if pos == token.NoPos {
 		pos = f.fn.Pos()
 	}
+	// ghost assertions (proof hints): may mention the function's local variables by name;
+	// parameters and results take precedence over locals of the same name
+	localNames := map[string]nameRef{}
+	for k, v := range f.names {
+		if _, shadow := env[k]; !shadow {
+			localNames[k] = v
+		}
+	}
+	c.names = localNames
 	for k, cl := range ct.Asserts {
 		if e.clauseApplies(cl) {
 			e.emit(s, "lemma", fmt.Sprintf("%d", k), c.evalBool(cl.Expr), pos, cl.Src)
 		}
 	}
+	c.names = nil
 	for k, cl := range ct.Ensures {
 		if !e.clauseApplies(cl) || cl.Tag == "deferred" {
 			continue
@@ -719,4 +735,33 @@ func sortedOblNames(m map[string][]*Oblig) []string {
 func fatalf(format string, a ...interface{}) {
 	fmt.Fprintf(os.Stderr, format+"\n", a...)
 	os.Exit(2)
+}
+
+// proveLemma emits the obligation of a top-level lemma: its body for arbitrary integer parameters,
+// with the opaque definitions it names revealed.
+func (e *Engine) proveLemma(lm *Lemma) (err error) {
+	defer func() {
+		if r := recover(); r != nil {
+			if ee, ok := r.(execError); ok {
+				err = fmt.Errorf("lemma %s: %s", lm.Name, ee.msg)
+				return
+			}
+			panic(r)
+		}
+	}()
+	fake := &Contract{Name: "lemma." + lm.Name, Flags: map[string]bool{}, Props: lm.Props}
+	for _, r := range lm.Reveal {
+		fake.Flags["reveal:"+r] = true
+	}
+	saved := e.curC
+	e.curC = fake
+	defer func() { e.curC = saved }()
+	env := map[string]Value{}
+	for _, p := range lm.Params {
+		env[p] = VInt{Fresh("lemma."+lm.Name+"."+p, SInt)}
+	}
+	c := &evalCtx{e: e, s: &State{heap: map[*Object]interface{}{}}, env: env}
+	goal := c.evalBool(lm.Body)
+	e.obligs = append(e.obligs, &Oblig{Name: "lemma/" + lm.Name, Func: "lemma." + lm.Name, Mode: PLAIN, Kind: "lemma", Goal: goal, Expect: "unsat", Src: lm.Src, Props: lm.Props})
+	return nil
 }
